@@ -14,7 +14,8 @@ FUNCTIONS = ["SuccessionDiagram.__getstate__/__setstate__", "SuccessionDiagram.r
              "SuccessionDiagram.node_attractor_candidates/seeds/sets"]
 PREFIXES = [(), ("succ",), ("bfs",), ("seeds",), ("succ", "seeds"), ("succ", "cands"), ("dfs", "sets"), ("build",), ("succ", "skiprem")]
 XS = [("pickle",), ("reclaim",), ("reclaim", "pickle")]
-SUFFIXES = [("control",), ("fullbfs",), ("everyseeds",), ("succ", "everyseeds"), ("sets",), ("minp", "seeds"), ("aseeds",), ("skiprem", "everyseeds")]
+SUFFIXES = [("control",), ("fullbfs",), ("everyseeds",), ("succ", "everyseeds"), ("sets",), ("minp", "seeds"), ("aseeds",), ("skiprem", "everyseeds"),
+            ("qcands",), ("cands",)]
 
 
 def strip(dump):
